@@ -8,8 +8,18 @@ PAIRS = [('socket.Socket.%s', 'async_socket.AsyncSocket.%s', m) for m in
          ('poll', 'receive', 'check_ping_timeout', 'send', 'close', 'schedule_ping', '_send_ping',
           'handle_post_request')] + \
         [('server.Server.%s', 'async_server.AsyncServer.%s', m) for m in
-         ('_trigger_event', 'send', 'send_packet', 'get_session', 'save_session')]
-FUNCTIONS = [a % m for a, b, m in PAIRS] + [b % m for a, b, m in PAIRS]
+         ('_trigger_event', 'send', 'send_packet', 'get_session', 'save_session',
+          '_service_task')] + \
+        [('socket.Socket.%s', 'async_socket.AsyncSocket.%s', '_websocket_handler.writer')]
+# steps whose two contract texts differ only in clauses about the value returned by the WebSocket
+# driver call (threaded drivers return [], asyncio drivers None) and in where the `upgrading` flag
+# is reset (threaded: handler and _upgrade_websocket; asyncio: _upgrade_websocket only) - neither is
+# an observable of the property; every other clause must be textually identical
+PAIRS_MODULO = [('socket.Socket.%s', 'async_socket.AsyncSocket.%s', m) for m in
+                ('_websocket_handler', '_upgrade_websocket', 'handle_get_request')]
+RETURN_VALUE_CLAUSES = {'flag-reset', 'result-empty', 'handled-returns-empty-list',
+                        'result-packets-wf'}
+FUNCTIONS = [a % m for a, b, m in PAIRS + PAIRS_MODULO] + [b % m for a, b, m in PAIRS + PAIRS_MODULO]
 
 
 def _text(c):
@@ -20,6 +30,11 @@ def _text(c):
             sorted(c.modifies_))
 
 
+def _text_modulo(c):
+    rq, en, ra, mo = _text(c)
+    return (rq, [e for e in en if e[0] not in RETURN_VALUE_CLAUSES], ra, mo)
+
+
 def extra_checks(REG):
     out = []
     for a, b, m in PAIRS:
@@ -27,19 +42,27 @@ def extra_checks(REG):
         ok = ca is not None and cb is not None and (ca is cb or _text(ca) == _text(cb))
         out.append(('%s#same-contract:%s' % (a % m, m), ok,
                     'threaded and asyncio %s are verified against the same contract text' % m))
+    for a, b, m in PAIRS_MODULO:
+        ca, cb = REG.contracts.get(a % m), REG.contracts.get(b % m)
+        ok = ca is not None and cb is not None and _text_modulo(ca) == _text_modulo(cb)
+        out.append(('%s#same-contract-modulo-driver-return-value:%s' % (a % m, m), ok,
+                    'threaded and asyncio %s are verified against the same contract text except for '
+                    'the clauses %s' % (m, sorted(RETURN_VALUE_CLAUSES))))
     return out
 
 
-LEVEL_TEXT = ('for 13 logical steps (poll, receive, check_ping_timeout, send, close, schedule_ping, '
+LEVEL_TEXT = ('for 18 logical steps (poll, receive, check_ping_timeout, send, close, schedule_ping, '
               '_send_ping, handle_post_request, _trigger_event, Server.send/send_packet/get_session/'
-              'save_session) the threaded and the asyncio implementation are each verified, path by path, '
+              'save_session, _service_task, the WebSocket writer closure; and - modulo the clauses about the '
+              'WebSocket driver call\'s return value - _websocket_handler, _upgrade_websocket, '
+              'handle_get_request) the threaded and the asyncio implementation are each verified, path by path, '
               'against one and the same contract text (checked structurally), whose postconditions fix the '
               'observables of the property: the event log, accepted / taken packets, flags, raised protocol '
               'errors')
 LEVEL_NOTE = ('equivalence over whole histories is the induction over steps (not mechanised); '
-              'handle_request, _handle_connect, handle_get_request, _websocket_handler and disconnect are '
+              'handle_request, _handle_connect and disconnect are '
               'under contract for the threaded server only, so C18 does not cover them; the asyncio close() '
               'does not put the None sentinel (representation difference hidden by the accepted/taken view)')
-NOT_DECIDED = ['AsyncServer.handle_request / _handle_connect / disconnect and the asyncio WebSocket handler',
+NOT_DECIDED = ['AsyncServer.handle_request / _handle_connect / disconnect',
                'detection of silent peers within the heartbeat bound on both servers (timing)']
 ASSUMPTIONS = [LEVEL_NOTE]
